@@ -577,6 +577,8 @@ def _exemptions(repo, fn):
                 out.append((n["method"], "(" + ", ".join(render(a, envs.get(id(n))) for a in n["args"]) + ")", n["l"]))
         elif k in ("If", "While") and id(n) in consumed:
             pass
+        elif k == "While" and n["cond"].get("k") == "Let" and n["cond"]["expr"].get("k") == "MethodCall" and n["cond"]["expr"]["method"] in ("pop", "pop_front", "pop_back") and not n["cond"]["expr"]["args"]:
+            pass  # `while let Some(x) = pending.pop()`: the driver loop of a worklist traversal (runs until nothing is pending)
         elif k in ("If", "While") and not (k == "If" and A.diverges(n["then"])):
             # a positive guard: the effect below happens only under this condition (strengthening it skips elements silently)
             if k == "If" and id(n) in pm and pm[id(n)][0]["k"] == "If" and pm[id(n)][1] == "else":
